@@ -135,6 +135,13 @@ class CaptureHandler(logging.Handler):
                 msg = record.getMessage()
             except Exception as exc:   # a broken format string in the code under test is not our problem
                 msg = f'{record.msg!r} % {record.args!r} ({exc})'
+            if record.exc_info and record.exc_info[0] is not None:
+                # what a real handler would print: the formatted traceback follows the message (logger.exception)
+                try:
+                    import traceback
+                    msg += '\n' + ''.join(traceback.format_exception_only(record.exc_info[0], record.exc_info[1])).rstrip()
+                except Exception:
+                    pass
             sink(record.levelno, record.name, msg, record)
 
     def handle(self, record):   # no lock, no filters: single baton holder
